@@ -72,6 +72,19 @@ FACTORS = {
 
 AMPS = [0.5 * EPS_Y, 3.0 * EPS_Y]
 DIRS = ["xx", "yy", "xy", "hyd", "xx-yy"]
+# magnitude of the whole path (case factor `amp`): every letter is multiplied by it.  A material without internal variables has
+# no scale of its own -- 'exactly linear elastic' is a statement about every decade of strain
+AMP_SCALES = {"unit": 1.0, "milli": 1e-3, "micro": 1e-6, "nano": 1e-9}
+# pre-strain (case flag `pre`): the FIRST step of every path is one of the 10 large increments +/- PRE_AMP e ('X' letters: a monotonic
+# load far into the plastic range, 4.8 % strain: the back-stress has carried the surface away from the origin), then the 20 letters
+PRE_AMP = 40.0 * EPS_Y
+
+
+def pre_letters(dimname):
+    """the 10 pre-strain increments +/- PRE_AMP e of the 5 directions (names +Xxx, -Xxx, ...)"""
+    L, names = letters(dimname)
+    pick = [i for i, nm in enumerate(names) if nm[1] == "L"]
+    return L[pick] * (PRE_AMP / AMPS[1]), [names[i][0] + "X" + names[i][2:] for i in pick]
 
 
 def letters(dimname):
@@ -335,7 +348,11 @@ DEVIATORIC = {"VonMises", "HillIso", "HillAniso"}
 
 
 def cfg_key(cfg):
-    return {k: cfg[k] for k in FACTORS}
+    key = {k: cfg[k] for k in FACTORS}
+    for k in ("amp", "pre"):  # path variants (absent from the key of the standard paths)
+        if cfg.get(k):
+            key[k] = cfg[k]
+    return key
 
 
 def is_reducible(cfg):
@@ -609,6 +626,11 @@ def _run_material(case):
     cfg = {k: case[k] for k in FACTORS}
     if case.get("dt0"):
         cfg["dt0"] = True
+    amp = AMP_SCALES[case.get("amp", "unit")]
+    if amp != 1.0:
+        cfg["amp"] = case["amp"]
+    if case.get("pre"):
+        cfg["pre"] = True
     lay = Layout(cfg)
     behT = build_behavior(cfg, "auto")
     behT._tol, behT._planeStress_tol = 1e-13, 1e-12  # documented local solver settings
@@ -618,6 +640,7 @@ def _run_material(case):
         out.append(viol("layout", f"packed layout {dict(behs[0].layout.slots)} differs from the documented order {lay.slots}", **cfg_key(cfg)))
         return {"violations": out, "fingerprint": fp("layout", cfg), "nontrivial": False, "transitions": 0}
     L, lnames = letters(cfg["dim"])
+    L = L * amp
     n = L.shape[1]
     depth, full_depth = case["depth"], case.get("full_fd_depth", 2)
     stats = new_stats()
@@ -627,6 +650,8 @@ def _run_material(case):
     for d in range(1, depth + 1):
         if d == 1 and first is not None:
             Ls, ln = L[first:first + 1], lnames[first:first + 1]
+        elif d == 1 and case.get("pre"):
+            Ls, ln = pre_letters(cfg["dim"])
         else:
             Ls, ln = L, lnames
         eps = (f_eps[:, None, :] + Ls[None]).reshape(-1, n)
@@ -637,7 +662,7 @@ def _run_material(case):
         if len(gidx) == 0:
             break
         # fingerprints = observables rounded on their natural scales (strain-like: eps_y, stress: sigma_y)
-        rows = np.round(np.hstack([eps[gidx] / EPS_Y, z[gidx] / EPS_Y, sig[gidx] / SIGMA_Y]), 7) + 0.0
+        rows = np.round(np.hstack([eps[gidx] / (EPS_Y * amp), z[gidx] / (EPS_Y * amp), sig[gidx] / (SIGMA_Y * amp)]), 7) + 0.0
         uniq = np.unique(rows, axis=0)
         n_states += len(uniq)
         obs.append(fp(uniq, digits=7))
@@ -952,12 +977,24 @@ def cases(tier, seed):
             if k not in seen_ps and (tier == "thorough" or _ndev(c) <= 2):
                 seen_ps.add(k)
                 out.append({"kind": "mat", **{f: c[f] for f in FACTORS}, "depth": 2, "chunk": 1})
+    # pre-strained paths: a large monotonic first step (10 'X' letters), then ALL 20-letter paths of length 2, for the behaviours whose
+    # surface translates (kinematic hardening), alone and with Maxwell branches (the stress relaxes while the surface stays where it is)
+    for c in _material_cfgs(2 if tier == "quick" else 3):
+        if c["kinematic"] != "none" and c["yield"] == "VonMises" and c["rate"] == "none" and (
+                (c["hardening"] == "none" and c["dim"] == "3D") if tier == "quick" else c["hardening"] in ("none", "Voce")):
+            out.append({"kind": "mat", **c, "depth": 3, "pre": True, "full_fd_depth": 1})
     out.sort(key=lambda c: -c["depth"])  # the expensive cases first (load balance)
     # the runner hands out blocks of 8 consecutive cases: one single-point case (the longest ones) at the head of each of the first blocks
     heavy = [c for c in out if c.get("chunk")]
     out = [c for c in out if not c.get("chunk")]
     for i, c in enumerate(heavy):
         out.insert(min(i * 8, len(out)), c)
+    # the material without internal variables at other magnitudes of strain (all paths x 1e-3, 1e-6, 1e-9): linear means every decade
+    for c in _material_cfgs(2):
+        if c["yield"] == "none" and c["branches"] == "none":
+            for a in AMP_SCALES:
+                if a != "unit":
+                    out.append({"kind": "mat", **c, "depth": 3, "amp": a})
     # MaterialPoint.Run (stress-controlled components are solved by an inner Newton on the strain): purity of the integration
     # inside that loop.  behaviours x control modes x strain programs
     mp_cfgs = [dict(_DEFAULT_MP, **d) for d in (
@@ -1311,14 +1348,19 @@ def describe(tier, seed):
     if tier == "quick":
         bound = ("material: behaviours within 2 deviations of (VonMises, no hardening, no kinematic, no rate, no branch, 3D) that the constructor accepts (114); "
                  "ALL 20-letter strain paths of length <= 3 within 1 deviation, <= 2 within 2 deviations; both local solvers on every step. "
+                 "magnitude letter `amp`: the behaviours without internal variables (3D / plane strain / plane stress) also with every letter x 1e-3, 1e-6, 1e-9 (length <= 3). "
+                 "pre-strain letter `pre`: von Mises + {Prager, Armstrong-Frederick, Chaboche} x {no, one, two} Maxwell branches, 3D: ALL paths 'one of the 10 increments +/- 40 eps_y e, then any 2 of the 20 letters'. "
                  "simulation: ALL valid operation sequences of depth 4 (J2 plane strain QUAD4), 3 (J2+Voce+AF plane stress TRI3+QUAD4; J2 3D HEXA8), 2 (Norton TRI3; Maxwell QUAD4)")
     else:
         bound = ("material: the FULL product of behaviour factors the constructor accepts (1737 = 579 x 3 dimensions, x 2 solvers inside each case); ALL strain paths of length "
                  "<= 4 for the default and its single deviations in yield / hardening / kinematic / rate / dimension, <= 3 within 2 deviations (<= 2 for yield x Maxwell branch x plane stress), <= 2 at 3 deviations, 1 for the rest. "
+                 "magnitude letter `amp` as in the quick tier; pre-strain letter `pre`: von Mises + kinematic hardening x branches x dimension x {no, Voce} isotropic hardening within 3 deviations. "
                  "simulation: ALL valid operation sequences of depth 5 (J2 plane strain QUAD4; J2+Voce+AF plane stress TRI3+QUAD4) and 4 (3 other material x mesh pairs)")
     return {
         "rule": "E2. material level: state = (total strain, packed z) of one material point, merged by fingerprint (rounded at 1e-7 eps_y); letter = one of 20 strain increments "
-                "+/- a e, e in {xx, yy, xy, hydrostatic, xx-yy}, a in {eps_y/2, 3 eps_y}; BFS over all paths; every transition is one Behavior.Integrate step (batched: one Gauss "
+                "+/- a e, e in {xx, yy, xy, hydrostatic, xx-yy}, a in {eps_y/2, 3 eps_y}; path variants: `amp` = all letters of the path scaled by 1e-3 / 1e-6 / 1e-9 (materials without "
+                "internal variables: linear in every decade of strain), `pre` = the first step is one of 10 large increments +/- 40 eps_y e (letters X: the yield surface has translated "
+                "far from the origin before the 20 letters act); BFS over all paths; every transition is one Behavior.Integrate step (batched: one Gauss "
                 "point per transition) checked against the documented constitutive definitions written in numpy; "
                 "tangent = Richardson difference (h = 1e-3 eps_y and h/2) along the full Kelvin basis (transitions of depth <= 2) and along one seeded generic direction (every "
                 "transition), used only where D(h), D(h/2) and the extrapolated one-sided differences agree and the whole stencil is in the same flow regime (kinks are skipped; "
@@ -1328,7 +1370,7 @@ def describe(tier, seed):
         "exhaustive": True,
         "bound": bound,
         "alphabet": {"yield": len(YIELDS), "hardening": len(HARDENINGS), "kinematic": len(KINEMATICS), "rate": len(RATES), "branches": len(BRANCHES),
-                     "dimension": 3, "solver": 2, "letters": 20, "sim_ops": len(SIM_OPS), "sim_configs": len(SIM_CFGS)},
+                     "dimension": 3, "solver": 2, "letters": 20, "amp": len(AMP_SCALES), "pre_letters": 10, "sim_ops": len(SIM_OPS), "sim_configs": len(SIM_CFGS)},
         "assumptions": [
             "steps whose local solve reports converged=False or whose plane-stress iteration raises are outside the property ('step sizes that converge'): counted (outcome class 'nonconverged-steps'), not expanded",
             "one elastic law (isotropic E=210e3, nu=0.3), one parameter set per hardening / kinematic / rate / branch letter, dt = 0.5 for rate-dependent and viscoelastic behaviours",
